@@ -52,7 +52,7 @@ class Driver:
                     ents.append([f, h, rt.digest(f, b)])
         self.add_table(ents)
 
-    def command(self, obj, commit=False, max_rounds=12):
+    def command(self, obj, commit=False, max_rounds=80):
         """send a command; resolve MISS tokens by iteration; finally (for create) send with commit"""
         o = dict(obj)
         o["commit"] = False
